@@ -78,6 +78,8 @@ pub(crate) fn add_regex_new<W, R, T>(
             let a0 = xraise!(eval(&args[0], ns, &rt)?);
             let s0 = to_primitive!(a0, String);
 
+            #[cfg(xray_verif)]
+            crate::verif::on_effect("regex");
             let dfa = match DFA::new(s0.as_str()) {
                 Ok(regex) => regex,
                 Err(err) => {
